@@ -93,7 +93,7 @@ static void row(pv_mlang* L, const pv_mseed* m, polyseed_data* s, unsigned A, pv
     free(in);
 }
 
-static uint64_t n_rows(void) { return (uint64_t)pv_nlangs * pv_scaled(2, 4) * 16; }
+static uint64_t n_rows(void) { return (uint64_t)pv_nlangs * pv_scaled(2, 16) * 16; }
 static void run_rows(uint64_t idx, pv_rng* rng) {
     pv_mlang* L = &pv_langs[idx % (uint64_t)pv_nlangs];
     if (!L->lib) return;
